@@ -349,6 +349,14 @@ func main() {
 								addrs[id.Name][fn] = true
 							}
 						}
+					case *ast.SliceExpr:
+						// slicing a package-level array or slice aliases its backing store
+						if id := rootIdent(x.X); id != nil && glob[id.Name] && !local[id.Name] {
+							if addrs[id.Name] == nil {
+								addrs[id.Name] = map[string]bool{}
+							}
+							addrs[id.Name][fn+"[:]"] = true
+						}
 					case *ast.CallExpr:
 						name := callName(x.Fun)
 						if name == "errorf" || name == "panicf" {
